@@ -27,8 +27,20 @@ class Recorder(BoboDeciderSubscriber):
     def __init__(self):
         self.notifs = []
         self.published = []
+        self.dec = None          # set by RealDecider: the subscriber looks at the decider from inside the callback
+        self.inside = []
+
+    def __len__(self):           # a subscriber Python counts as false is still a subscriber
+        return 0
 
     def on_decider_update(self, completed, halted, updated, local):
+        # what a subscriber may well do while it is being told: look at the decider (the distributed component takes a
+        # snapshot; a monitor reads sizes and runs).  Read-only, re-entrant on the caller's thread, must change nothing.
+        if self.dec is not None:
+            try:
+                self.inside.append((self.dec.size(), len(self.dec.all_runs()), tuple(len(x) for x in self.dec.snapshot())))
+            except Exception as e:      # noqa
+                self.inside.append(('raised', type(e).__name__))
         # snapshot the lists: the decider may edit them later
         self.notifs.append((list(completed), list(halted), list(updated), local))
         # text of every published record at publication time (C12: published snapshots never change)
@@ -44,6 +56,7 @@ class RealDecider:
         self.rec = Recorder()
         self.dec = BoboDecider(self.phenomena, CounterGen('e'), CounterGen('r'), max_cache=cache)
         self.dec.subscribe(self.rec)
+        self.rec.dec = self.dec
 
     def table(self) -> str:
         out = []
